@@ -781,11 +781,9 @@ Section StoreNoInval.
   Qed.
 
 
-  (* tables without invalidated_by satisfy the specification of invalidate_attrs *)
-  Lemma inval_spec_noop : (forall rec0 : call -> M val, rec0 = rec0) -> True.
-  Proof. auto. Qed.
 End StoreNoInval.
 
+(* tables without invalidated_by satisfy the specification of invalidate_attrs *)
 Lemma no_inval_spec ct : no_inval_table ct -> inval_spec ct.
 Proof.
   intros H fuel l a F _. apply (invalidate_noop ct H (exec ct fuel) (fun h => Inv ct h /\ F h)). auto.
